@@ -70,7 +70,6 @@ func C06(c *Ctx) {
 		}
 	}
 	r.Floor("R06.1", "registration updates in setTimeoutList", len(addUpd), 2)
-	r.Floor("R06.3", "removal updates in setTimeoutList", len(remUpd), 2)
 	for _, in := range addUpd {
 		mu := in.(*ssa.MapUpdate)
 		ok := false
@@ -182,43 +181,7 @@ func C06(c *Ctx) {
 		return false, 0
 	})
 
-	// R06.3
-	nU := 0
-	for _, call := range core.Calls(stl) {
-		cl, ok := call.(*ssa.Call)
-		if !ok {
-			continue
-		}
-		o := core.CalleeObj(call)
-		if o == nil || o.Name() != "Unmarshal" || !strings.HasSuffix(core.CalleeName(call), "pb.TransactionRecord).Unmarshal") {
-			continue
-		}
-		nU++
-		// from the no-error edge of Unmarshal: every path to the next loop iteration / nil return passes a removal update
-		okEdges := errNilEdges(stl, cl)
-		isRem := func(in ssa.Instruction) bool {
-			for _, x := range remUpd {
-				if x == in {
-					return true
-				}
-			}
-			return false
-		}
-		bad := ""
-		for b, mm := range okEdges {
-			for si := range mm {
-				rs := core.Reach([]core.Point{{B: b.Succs[si], Idx: 0}}, isRem, nil)
-				for _, blk := range stl.Blocks {
-					if strings.HasSuffix(blk.Comment, ".loop") && blk.Dominates(cl.Block()) && len(blk.Instrs) > 0 && rs.Has(blk.Instrs[len(blk.Instrs)-1]) {
-						bad = "a path from the decoded record goes on to the next transaction without updating the removal map: lines " + rs.Witness(c.P, blk.Instrs[len(blk.Instrs)-1])
-					}
-				}
-			}
-		}
-		r.Check(bad == "" && okEdges.Len() > 0, "R06.3", "setTimeoutList: receipt removes the id from the list of the recorded height", c.P.Pos(cl.Pos()),
-			"every path after decoding the stored record updates removeTimeoutListMap", "a receipt can leave its request in the timeout list: "+bad+"; at the timeout height the finished transaction is then overwritten with BEGIN_ROLLBACK and listed as timed out")
-	}
-	r.Floor("R06.3", "record decodes in the receipt branch", nU, 1)
+	c.timeoutListInvariant("R06.3", "R06.6", "R06.7")
 
 	// R06.4
 	execFuncs := map[*ssa.Function]bool{}
@@ -278,8 +241,114 @@ func C06(c *Ctx) {
 		r.Check(rs.Has(persist[0]), "R06.4", "processExecuteEvent: PersistBlockData after FlushDirtyData", c.P.Pos(persist[0].Pos()), "flush precedes persist", "PersistBlockData is not reached after FlushDirtyData")
 	}
 
+	// R06.5
+	for _, fn := range []*ssa.Function{str, gtm} {
+		var hp *ssa.Parameter
+		for _, p := range fn.Params {
+			if p.Name() == "height" {
+				hp = p
+			}
+		}
+		ok := false
+		for _, call := range core.Calls(fn) {
+			if core.StaticCallee(call) == gtl && hp != nil && core.Strip(call.Common().Args[1]) == ssa.Value(hp) {
+				ok = true
+			}
+		}
+		r.Check(ok, "R06.5", shortFn(fn)+": list of its own height", c.P.Pos(fn.Pos()), "iterates getTimeoutList(height)", "the expiry list is not read for the function's own height")
+	}
+	allowedFields := map[string]bool{"ledger": true, "config": true, "logger": true}
+	for _, fn := range []*ssa.Function{stl, gtm, str, gtl, c.P.Fn(execPrefix + "setTxRecord"), c.P.Fn(execPrefix + "setGlobalTxStatus"), c.P.Fn(execPrefix + "getTxInfoByGlobalID"), c.P.Fn(execPrefix + "addTimeoutList"), c.P.Fn(execPrefix + "removeTimeoutList")} {
+		if fn == nil {
+			continue
+		}
+		bad := ""
+		for _, b := range fn.Blocks {
+			for _, in := range b.Instrs {
+				if fa, ok := in.(*ssa.FieldAddr); ok {
+					if o, f, _, ok := core.FieldOf(fa); ok && o == "internal/executor.BlockExecutor" && !allowedFields[f] {
+						bad = f
+					}
+				}
+			}
+		}
+		r.Check(bad == "", "R06.5", shortFn(fn)+": no in-memory executor state", c.P.Pos(fn.Pos()), "reads only ledger/config/logger", "timeout bookkeeping depends on the in-memory executor field "+bad+" (lost on restart)")
+	}
+}
+
+func shortCallee(call ssa.CallInstruction) string {
+	n := core.CalleeName(call)
+	if i := strings.LastIndex(n, "."); i >= 0 {
+		return n[i+1:]
+	}
+	return n
+}
+
+// timeoutListInvariant emits the obligations that keep the invariant "the
+// timeout list of a height contains exactly the requests still in BEGIN":
+// removal on every accepted receipt, readable list encoding, coherent
+// per-block accumulators. Shared by C06 and C04 (whose timeout edge relies on it).
+func (c *Ctx) timeoutListInvariant(rRemoval, rEncoding, rAccum string) {
+	r := c.R
+	stl := c.fn(rRemoval, execPrefix+"setTimeoutList")
+	if stl == nil {
+		return
+	}
+	var addUpd, remUpd []ssa.Instruction
+	for _, b := range stl.Blocks {
+		for _, in := range b.Instrs {
+			mu, ok := in.(*ssa.MapUpdate)
+			if !ok {
+				continue
+			}
+			if core.Mentions(mu.Key, fieldLoad("IBTP", "TimeoutHeight")) {
+				addUpd = append(addUpd, in)
+			} else if core.Mentions(mu.Key, fieldLoad("TransactionRecord", "Height")) {
+				remUpd = append(remUpd, in)
+			}
+		}
+	}
+	r.Floor(rRemoval, "removal updates in setTimeoutList", len(remUpd), 2)
+	// R06.3
+	nU := 0
+	for _, call := range core.Calls(stl) {
+		cl, ok := call.(*ssa.Call)
+		if !ok {
+			continue
+		}
+		o := core.CalleeObj(call)
+		if o == nil || o.Name() != "Unmarshal" || !strings.HasSuffix(core.CalleeName(call), "pb.TransactionRecord).Unmarshal") {
+			continue
+		}
+		nU++
+		// from the no-error edge of Unmarshal: every path to the next loop iteration / nil return passes a removal update
+		okEdges := errNilEdges(stl, cl)
+		isRem := func(in ssa.Instruction) bool {
+			for _, x := range remUpd {
+				if x == in {
+					return true
+				}
+			}
+			return false
+		}
+		bad := ""
+		for b, mm := range okEdges {
+			for si := range mm {
+				rs := core.Reach([]core.Point{{B: b.Succs[si], Idx: 0}}, isRem, nil)
+				for _, blk := range stl.Blocks {
+					if strings.HasSuffix(blk.Comment, ".loop") && blk.Dominates(cl.Block()) && len(blk.Instrs) > 0 && rs.Has(blk.Instrs[len(blk.Instrs)-1]) {
+						bad = "a path from the decoded record goes on to the next transaction without updating the removal map: lines " + rs.Witness(c.P, blk.Instrs[len(blk.Instrs)-1])
+					}
+				}
+			}
+		}
+		r.Check(bad == "" && okEdges.Len() > 0, rRemoval, "setTimeoutList: receipt removes the id from the list of the recorded height", c.P.Pos(cl.Pos()),
+			"every path after decoding the stored record updates removeTimeoutListMap", "a receipt can leave its request in the timeout list: "+bad+"; at the timeout height the finished transaction is then overwritten with BEGIN_ROLLBACK and listed as timed out")
+	}
+	r.Floor(rRemoval, "record decodes in the receipt branch", nU, 1)
+
 	// R06.6 list encoding: a separator is emitted only after a non-empty prefix
-	r.Rule("R06.6", "list encoding: the reader treats a list whose first element is empty as no list; therefore every place that appends an id to a stored comma-separated timeout list (builder.WriteString(\",\"), x + \",\" + y, strings.Join of a literal pair) emits the separator only behind a test that the existing list is not the empty string (directly or in the helper it delegates to).")
+	r.Rule(rEncoding, "list encoding: the reader treats a list whose first element is empty as no list; therefore every place that appends an id to a stored comma-separated timeout list (builder.WriteString(\",\"), x + \",\" + y, strings.Join of a literal pair) emits the separator only behind a test that the existing list is not the empty string (directly or in the helper it delegates to).")
 	nSep := 0
 	var sepFuncs []*ssa.Function
 	for _, fn := range c.P.ModuleFuncs(true) {
@@ -363,12 +432,12 @@ func C06(c *Ctx) {
 		if len(ss) == 0 {
 			continue
 		}
-		nSep += c.behindEdges("R06.6", shortFn(fn), fn, nonEmpty, isSep, "existing list != \"\"", "separator emission")
+		nSep += c.behindEdges(rEncoding, shortFn(fn), fn, nonEmpty, isSep, "existing list != \"\"", "separator emission")
 	}
-	r.Floor("R06.6", "separator emissions in timeout-list code", nSep, 2)
+	r.Floor(rEncoding, "separator emissions in timeout-list code", nSep, 2)
 
 	// R06.7 accumulator coherence
-	r.Rule("R06.7", "accumulator coherence: in setTimeoutList a map element that is extended (m[k] = f(old, id)) or initialised under a comma-ok lookup uses the lookup of the same map and key (not the sibling accumulator).")
+	r.Rule(rAccum, "accumulator coherence: in setTimeoutList a map element that is extended (m[k] = f(old, id)) or initialised under a comma-ok lookup uses the lookup of the same map and key (not the sibling accumulator).")
 	nAcc := 0
 	for _, in := range append(append([]ssa.Instruction{}, addUpd...), remUpd...) {
 		mu := in.(*ssa.MapUpdate)
@@ -392,49 +461,8 @@ func C06(c *Ctx) {
 		}
 		nAcc++
 		ok := core.Strip(lk.X) == core.Strip(mu.Map) && sameValue(lk.Index, mu.Key)
-		r.Check(ok, "R06.7", "setTimeoutList: accumulator read/write agree", c.P.Pos(in.Pos()), "extends the element it looked up", "the per-block accumulator is extended from a lookup in a different map/key: ids recorded earlier in the block for the same height are overwritten")
+		r.Check(ok, rAccum, "setTimeoutList: accumulator read/write agree", c.P.Pos(in.Pos()), "extends the element it looked up", "the per-block accumulator is extended from a lookup in a different map/key: ids recorded earlier in the block for the same height are overwritten")
 	}
-	r.Floor("R06.7", "accumulator updates under a lookup", nAcc, 4)
+	r.Floor(rAccum, "accumulator updates under a lookup", nAcc, 4)
 
-	// R06.5
-	for _, fn := range []*ssa.Function{str, gtm} {
-		var hp *ssa.Parameter
-		for _, p := range fn.Params {
-			if p.Name() == "height" {
-				hp = p
-			}
-		}
-		ok := false
-		for _, call := range core.Calls(fn) {
-			if core.StaticCallee(call) == gtl && hp != nil && core.Strip(call.Common().Args[1]) == ssa.Value(hp) {
-				ok = true
-			}
-		}
-		r.Check(ok, "R06.5", shortFn(fn)+": list of its own height", c.P.Pos(fn.Pos()), "iterates getTimeoutList(height)", "the expiry list is not read for the function's own height")
-	}
-	allowedFields := map[string]bool{"ledger": true, "config": true, "logger": true}
-	for _, fn := range []*ssa.Function{stl, gtm, str, gtl, c.P.Fn(execPrefix + "setTxRecord"), c.P.Fn(execPrefix + "setGlobalTxStatus"), c.P.Fn(execPrefix + "getTxInfoByGlobalID"), c.P.Fn(execPrefix + "addTimeoutList"), c.P.Fn(execPrefix + "removeTimeoutList")} {
-		if fn == nil {
-			continue
-		}
-		bad := ""
-		for _, b := range fn.Blocks {
-			for _, in := range b.Instrs {
-				if fa, ok := in.(*ssa.FieldAddr); ok {
-					if o, f, _, ok := core.FieldOf(fa); ok && o == "internal/executor.BlockExecutor" && !allowedFields[f] {
-						bad = f
-					}
-				}
-			}
-		}
-		r.Check(bad == "", "R06.5", shortFn(fn)+": no in-memory executor state", c.P.Pos(fn.Pos()), "reads only ledger/config/logger", "timeout bookkeeping depends on the in-memory executor field "+bad+" (lost on restart)")
-	}
-}
-
-func shortCallee(call ssa.CallInstruction) string {
-	n := core.CalleeName(call)
-	if i := strings.LastIndex(n, "."); i >= 0 {
-		return n[i+1:]
-	}
-	return n
 }
